@@ -74,13 +74,30 @@ def mk_gate(rec):
         return BarrierPlaceholder(len(rec['rad']), list(rec['rad']))
     if rec['kind'] == 'block':
         return CircuitGate(mk_circuit_from_ops(len(rec['rad']), rec['rad'], rec['body']), True)
+    if rec['kind'] == 'iblock':
+        from bqskit.ir.gates import DaggerGate
+        return DaggerGate(CircuitGate(mk_circuit_from_ops(len(rec['rad']), rec['rad'], inv_body(rec['body'])), True))
     t = rec['tag']
     g = TaggedGate(base_gate(rec['rad'], rec['np'] > 0), abs(t))
     return g.get_inverse() if t < 0 else g
 
 
+def inv_body(body):
+    """Inverse of a block body as records (mirror of InvOp in CircuitOps.tla; only used to build arguments)."""
+    out = []
+    for b in reversed(body):
+        b = dict(b)
+        if b['kind'] in ('block', 'iblock'):
+            b['body'] = inv_body(b['body'])
+            b['kind'] = 'iblock' if b['kind'] == 'block' else 'block'
+        elif b['kind'] == 'gate':
+            b['tag'] = -b['tag']
+        out.append(b)
+    return out
+
+
 def gate_params(rec):
-    if rec['kind'] == 'block':
+    if rec['kind'] in ('block', 'iblock'):
         out = []
         for b in rec['body']:
             out += gate_params(b)
@@ -136,7 +153,7 @@ def proj_gate(g, inv=False):
         body = [proj_op(op, inv) for op in g._circuit]
         if inv:
             body.reverse()
-        r = {'tag': 0, 'kind': 'block', 'np': int(g.num_params), 'rad': [int(x) for x in g.radixes], 'body': body}
+        r = {'tag': 0, 'kind': 'iblock' if inv else 'block', 'np': int(g.num_params), 'rad': [int(x) for x in g.radixes], 'body': body}
     else:
         r = {'tag': UNTAGGED + g.num_qudits, 'kind': 'gate', 'np': int(g.num_params), 'rad': [int(x) for x in g.radixes], 'body': []}
     if len(_proj_cache) > 200000:
@@ -473,7 +490,8 @@ class Gen:
             return mkcall(name, points=[list(p) for p in pts])
         if name in ('remove', 'remove_all'):
             ops = self.op_points(X)
-            if bad or not ops:
+            ops = [x for x in ops if x[1]['kind'] in ('gate', 'barrier')]      # a block operand would have to carry the
+            if bad or not ops:                                                 # block's current inner parameters
                 op = self.new_op(X, allow_barrier=False)          # not in the circuit
             else:
                 op = rng.choice(ops)[1]
@@ -555,6 +573,14 @@ class Gen:
         if name == 'renumber':
             perm = list(range(nq))
             rng.shuffle(perm)
+            if not bad and rng.random() < 0.7:       # mostly permutations that keep every qudit's radix
+                perm = list(range(nq))
+                for r in set(X['radix']):
+                    idx = [q for q in range(nq) if X['radix'][q] == r]
+                    img = idx[:]
+                    rng.shuffle(img)
+                    for a, b in zip(idx, img):
+                        perm[a] = b
             if bad:
                 perm = perm[:-1] if rng.random() < 0.5 or nq < 2 else [perm[0]] + perm[:-1]
             return mkcall(name, perm=perm)
@@ -677,9 +703,9 @@ def _replay_worker(args):
     return out
 
 
-def parallel(fn, jobs, procs=14):
+def parallel(fn, jobs, procs=14, seq=False):
     import multiprocessing as mp
-    if len(jobs) <= 2:
+    if len(jobs) <= 2 or seq:
         return [fn(j) for j in jobs]
     ctx = mp.get_context('fork')
     with ctx.Pool(min(procs, len(jobs))) as pool:
@@ -703,14 +729,14 @@ def write_ref_cfg(path, **k):
 
 
 def parse_edges(out):
-    """EDGE lines printed by CircuitRef: (pre, call, post) as JSON strings inside a TLA+ tuple."""
+    """EDGE lines printed by CircuitRef: (pre, call, post) as JSON strings inside a TLA+ tuple (calls stay undecoded)."""
     edges = []
     for line in out.splitlines():
         if not line.startswith('<<"EDGE", '):
             continue
         try:
-            arr = json.loads('[' + line[2:-2] + ']')
-            edges.append((arr[1], json.loads(arr[2]), arr[3]))
+            arr = json.loads('[' + line.rstrip()[2:-2] + ']')
+            edges.append((arr[1], arr[2], arr[3]))
         except (ValueError, IndexError):
             raise MachineryError('unparsable EDGE line: %r' % line[:200])
     return edges
@@ -721,11 +747,17 @@ def model_check(cfg_kwargs, scratch, emit, timeout=900, simulate=None, depth=Non
     kw = dict(cfg_kwargs)
     kw['Emit'] = 'TRUE' if emit else 'FALSE'
     write_ref_cfg(cfg, **kw)
-    r = common.tlc(SPEC_REF, cfg, coverage=simulate is None, timeout=timeout, scratch=scratch,
-                   simulate=simulate, depth=depth, seed=seed, workers='auto' if simulate is None else 4)
-    if not r.ok and not (simulate is not None and 'TLC-TIMEOUT' not in r.out and r.states > 0 and 'Error:' not in r.out):
+    userfile = cfg + '.edges'
+    r = common.tlc(SPEC_REF, cfg, coverage=True, timeout=timeout, scratch=scratch,
+                   extra=['-userFile', userfile] if emit else None)
+    if not r.ok:
         raise MachineryError('CircuitRef model checking failed (%s): %s' % (cfg_kwargs, r.error or r.out[-1500:]))
-    return r
+    edges = []
+    if emit:
+        with open(userfile) as f:
+            edges = parse_edges(f.read())
+        os.unlink(userfile)
+    return r, edges
 
 
 def edge_paths(edges, init_key):
@@ -781,9 +813,16 @@ def make_violation(prop, clause, h, i):
     A = h['snaps'][s['a'] - 1]
     prev = h.get('prefix_calls', []) + _prev_names(h, i)
     n = len(B['grid'])
+    def mismatch(X):
+        return any(o['rad'][i] != X['radix'][q] for row in X['grid'] for x in set(row) if x
+                   for o in [X['ops'][x - 1]] for i, q in enumerate(o['loc']) if q < X['nq'] and i < len(o['rad']))
     key = {'call': call['name'], 'clause': clause, 'exc': s['exc'],
-           'after_renumber': 'renumber' in prev,
-           'after_fold': any(p in ('fold', 'straighten') for p in prev) or call['name'] in ('fold', 'straighten')}
+           'after_renumber': 'renumber' in prev or call['name'] == 'renumber',
+           'radix_mismatch_before': mismatch(B),
+           'empty_cycle_before': any(not any(row) for row in B['grid'])}
+    if call['name'] in ('remove', 'remove_all'):
+        key['operand_kind'] = call['op']['kind']
+        key['via'] = call['via']
     if call['name'] in ('pop', 'replace', 'replace_gate', 'replace_with_circuit', 'unfold'):
         key['negative_point'] = call['ci'] < 0 or call['q'] < 0
     if call['name'] in ('insert_circuit',):
@@ -831,12 +870,12 @@ def _short_args(call):
 def _grid_str(X):
     def name(i):
         o = X['ops'][i - 1]
-        return {'gate': str(o['tag']), 'barrier': 'bar', 'block': 'blk' + str(_flat(o))}.get(o['kind'], '?')
+        return {'gate': str(o['tag']), 'barrier': 'bar', 'block': 'blk' + str(_flat(o)), 'iblock': 'iblk' + str(_flat(o))}.get(o['kind'], '?')
     return '[' + ' | '.join(','.join(name(i) if i else '.' for i in row) for row in X['grid']) + '] nq=%d' % X['nq']
 
 
 def _flat(o):
-    if o['kind'] != 'block':
+    if o['kind'] not in ('block', 'iblock'):
         return o['tag']
     return [_flat(b) for b in o['body']]
 
@@ -848,7 +887,7 @@ CORE_ACTS = ['append', 'insert', 'pop', 'replace', 'remove', 'fold', 'unfold', '
              'renumber', 'batch_replace', 'remove_all', 'pop_cycle', 'straighten', 'batch_unfold', 'unfold_all', 'copy', 'clear']
 CFG_Q3 = dict(InitQ=3, MinQ=3, MaxQ=3, MaxLive=2, MaxArity=3, MaxSub=0, MaxNest=2, Radixes='{2}', AllVariants='FALSE', MaxDepth=3,
               Acts=CORE_ACTS)
-CFG_EMIT = dict(InitQ=2, MinQ=2, MaxQ=2, MaxLive=2, MaxArity=2, MaxSub=2, MaxNest=2, Radixes='{2}', AllVariants='TRUE', MaxDepth=3)
+CFG_EMIT = dict(InitQ=2, MinQ=2, MaxQ=2, MaxLive=2, MaxArity=2, MaxSub=2, MaxNest=2, Radixes='{2}', AllVariants='FALSE', MaxDepth=3)
 CFG_EMIT_Q = dict(InitQ=2, MinQ=1, MaxQ=3, MaxLive=1, MaxArity=2, MaxSub=1, MaxNest=1, Radixes='{2, 3}', AllVariants='TRUE', MaxDepth=3)
 
 ACTIONS = ['ActAppend', 'ActExtend', 'ActAppendCircuit', 'ActInsert', 'ActInsertCircuit', 'ActPop', 'ActPopLast', 'ActBatchPop',
@@ -873,18 +912,16 @@ def replay_jobs(edges, cfg, rng, limit):
     if init is None:
         raise MachineryError('initial state not found among emitted edges')
     paths = edge_paths(edges, init)
-    uniq = {}
-    for pre, call, post in edges:
-        uniq[(pre, json.dumps(call, sort_keys=True))] = (pre, call)
-    items = [uniq[k] for k in sorted(uniq)]
+    items = sorted({(pre, call) for pre, call, _ in edges})
+    total = len(items)
     if limit and len(items) > limit:
         items = rng.sample(items, limit)
     jobs = []
     for pre, call in items:
         if pre not in paths:
             raise MachineryError('emitted edge whose source is unreachable in the emitted graph')
-        jobs.append((cfg['InitQ'], init_radix(cfg), paths[pre] + [call]))
-    return jobs, len(uniq)
+        jobs.append((cfg['InitQ'], init_radix(cfg), [json.loads(c) for c in paths[pre]] + [json.loads(call)]))
+    return jobs, total
 
 
 def nontrivial(h):
@@ -908,42 +945,41 @@ def run_check(ctx, prop):
     t0 = time.time()
     states = trans = 0
     tlc_runs = []
-    # 1. model checking of the reference state machine (invariants + action property + coverage)
+    # 1. model checking of the reference state machine (invariants + action property on every transition, coverage);
+    # 2. the transitions emitted by the small configurations are replayed into a real Circuit
     cov = {}
-    for name, cfg in (('full-alphabet 2-3 qudits', CFG_FULL), ('core alphabet 3 qudits, arity <= 3', CFG_Q3)):
-        c2 = dict(cfg)
-        if not quick:
-            c2['MaxDepth'] = cfg['MaxDepth'] + (1 if name.startswith('core') else 0)
-        r = model_check(c2, ctx.scratch, emit=False, timeout=3000)
+    hist = []
+    edges_total = edges_replayed = 0
+    plan = [('2 qudits, full alphabet except qudit calls, <= 2 live operations', CFG_EMIT, True, 7000 if quick else 60000),
+            ('1-3 qudits, full alphabet with qudit calls, 1 live operation', CFG_EMIT_Q, True, 5000 if quick else 60000),
+            ('3 qudits, core alphabet, operations of width <= 3, <= 2 live operations', CFG_Q3, False, 0)]
+    if not quick:
+        plan.append(('2-3 qudits, full alphabet, <= 2 live operations', CFG_FULL, False, 0))
+        plan.append(('3 qudits, core alphabet, width <= 3, <= 3 live operations', dict(CFG_Q3, MaxLive=3, MaxDepth=4, Acts=CORE_ACTS[:9]), False, 0))
+    for name, cfg, emit, limit in plan:
+        r, edges = model_check(cfg, ctx.scratch, emit=emit, timeout=6000)
         states += r.distinct
         trans += r.states
-        tlc_runs.append({'config': name, 'distinct_states': r.distinct, 'transitions': r.states, 'depth': r.depth, 'wall_s': round(r.wall, 1)})
+        tlc_runs.append({'config': name, 'distinct_states': r.distinct, 'transitions': r.states, 'depth': r.depth, 'wall_s': round(r.wall, 1),
+                         'edges_emitted': len(edges)})
         for a, n in r.coverage.items():
             cov[a] = cov.get(a, 0) + n
+        if emit:
+            if len(edges) < 100:
+                raise MachineryError('CircuitRef emitted only %d edges' % len(edges))
+            jobs, n = replay_jobs(edges, cfg, rng, limit)
+            edges_total += n
+            edges_replayed += len(jobs)
+            per = max(1, len(jobs) // 56)
+            for part in parallel(_replay_worker, [jobs[i:i + per] for i in range(0, len(jobs), per)], seq=len(jobs) < 8000):
+                hist += part
     missing = [a for a in ACTIONS if not cov.get(a)]
     if missing:
         raise MachineryError('CircuitRef actions never taken (vacuous model): %s' % missing)
-    t1 = time.time()
-    # 2. every emitted transition of the small configurations is replayed into a real Circuit
-    hist = []
-    edges_total = edges_replayed = 0
-    for cfg, limit in ((CFG_EMIT, 9000 if quick else 0), (CFG_EMIT_Q, 5000 if quick else 0)):
-        r = model_check(cfg, ctx.scratch, emit=True, timeout=3000)
-        states += r.distinct
-        trans += r.states
-        edges = parse_edges(r.out)
-        if len(edges) < 100:
-            raise MachineryError('CircuitRef emitted only %d edges' % len(edges))
-        jobs, n = replay_jobs(edges, cfg, rng, limit)
-        edges_total += n
-        edges_replayed += len(jobs)
-        per = max(1, len(jobs) // 56)
-        for part in parallel(_replay_worker, [jobs[i:i + per] for i in range(0, len(jobs), per)]):
-            hist += part
+    t1 = t2 = time.time()
     for h in hist:
         h['kind'] = 'edge'
     n_edge_hist = len(hist)
-    t2 = time.time()
     # 3. long seeded random histories over the whole alphabet (half of them without renumber_qudits, whose
     #    known defect ends a history early and masks rarer findings)
     nh, nc = (150, 120) if quick else (1500, 300)
@@ -999,7 +1035,7 @@ def run_check(ctx, prop):
              'before': _grid_str(hist[0]['snaps'][hist[0]['steps'][0]['b'] - 1]) if hist[0]['steps'] else '',
              'after': _grid_str(hist[0]['snaps'][hist[0]['steps'][0]['a'] - 1]) if hist[0]['steps'] else ''},
         ],
-        'phase_wall_s': {'model_checking': round(t1 - t0, 1), 'emit_and_replay': round(t2 - t1, 1), 'random_histories': round(t3 - t2, 1),
+        'phase_wall_s': {'model_checking_and_replay': round(t1 - t0, 1), 'random_histories': round(t3 - t2, 1),
                          'trace_validation': round(time.time() - t3, 1)},
         'checker_cmd': 'tlc CircuitRef.tla (generated cfg: constants above, VIEW st, INVARIANTS NoEmptyCycle OpsAtLoc RadixOK Sanity, '
                        'PROPERTY ActionProperty, -coverage 1); tlc -config CircuitAbs.cfg CircuitAbs.tla (batch, TRACE_FILE, PROP=%s)' % prop,
